@@ -52,6 +52,9 @@ type Obligation struct {
 	fv      *FuncVC
 	Entry   bool
 	EdgePCs []string
+	replayed   bool
+	replayLog  string
+	replayTest string
 }
 
 type edge struct {
